@@ -86,7 +86,7 @@ def parse_unit(path):
     """-> dict(name, props, allow, segments).  segments: ('text', lines) | ('block', header, lines, lineno)."""
     lines = open(path, encoding='utf-8').read().split('\n')
     unit = {'path': path, 'name': os.path.splitext(os.path.basename(path))[0], 'props': [], 'allow': [],
-            'segments': [], 'kani': [], 'allow_attr': [], 'rewrites': [], 'strip_attrs': [], 'hoist_format': None, 'hoist_patterns': None}
+            'segments': [], 'kani': [], 'allow_attr': [], 'rewrites': [], 'strip_attrs': [], 'hoist_format': None, 'hoist_patterns': None, 'map_loops': []}
     cur = []
     block = None
     for no, ln in enumerate(lines, 1):
@@ -126,6 +126,12 @@ def parse_unit(path):
                 cur.append(ln)
             elif d.startswith('hoist-format-captures'):
                 unit['hoist_format'] = d.split('::', 1)[-1].strip() or 'format! inline captures hoisted to positional arguments'
+                cur.append(ln)
+            elif d.startswith('map-collect-to-loop '):
+                m = re.match(r'map-collect-to-loop\s+(\w+)\s*::\s*(.*)$', d)
+                if not m:
+                    raise ExtractError('%s:%d: bad map-collect-to-loop' % (path, no))
+                unit['map_loops'].append({'name': m.group(1), 'why': m.group(2)})
                 cur.append(ln)
             elif d.startswith('fn ') or d.startswith('item ') or d.startswith('stub '):
                 if block is not None:
@@ -294,6 +300,12 @@ def normalise(unit, text, log=None):
                     edits.append((ts[j - 1][3], ts[j - 1][3], ' }'))
                 if log is not None:
                     log.append({'kind': 'hoist-closure-pattern', 'old': '|%s|' % pat, 'new': '|%s| { let %s = %s; .. }' % (pname, pat, pname), 'why': unit['hoist_patterns']})
+        ml = _map_loop_at(unit, ts, k, match_close)
+        if ml:
+            edits.extend(ml['edits'])
+            if log is not None:
+                log.append({'kind': 'map-collect-to-loop', 'old': 'let %s = <recv>.map(|%s| <block>).collect();' % (ml['name'], ml['param']),
+                            'new': 'let %s = { let mut __acc = Vec::new(); for %s in <recv> { let __o = <block>; __acc.push(__o); } __acc };' % (ml['name'], ml['param']), 'why': ml['why']})
         if unit.get('hoist_format') and ts[k][1] == 'format' and k + 3 < len(ts) and ts[k + 1][1] == '!' and ts[k + 2][1] == '(' and ts[k + 3][0] == 'str':
             lit = ts[k + 3]
             caps = _CAPTURE.findall(lit[1])
@@ -314,6 +326,50 @@ def normalise(unit, text, log=None):
         pos = e_
     out.append(text[pos:])
     return ''.join(out)
+
+
+def _map_loop_at(unit, ts, k, match_close):
+    """`let NAME [: TY] = RECV . map ( | P | { .. } ) . collect ( ) ;` at token k (the `let`), NAME listed by
+    //@map-collect-to-loop  ->  the three text edits that turn it into the equivalent loop (std: Map calls the closure
+    once per element, in order; collect into a Vec pushes the results in that order).  The closure body, the receiver
+    and every other token stay as they are."""
+    if not unit.get('map_loops') or ts[k][1] != 'let':
+        return None
+    j = k + 1
+    if j < len(ts) and ts[j][1] == 'mut':
+        j += 1
+    names = {m['name']: m['why'] for m in unit['map_loops']}
+    if j >= len(ts) or ts[j][1] not in names:
+        return None
+    name = ts[j][1]
+    # the `=` of the statement (depth 0; generics in the type carry no `=`)
+    e = j + 1
+    while e < len(ts) and ts[e][1] not in ('=', ';'):
+        e += 1
+    if e >= len(ts) or ts[e][1] != '=':
+        return None
+    # `. map ( | P | {` at depth 0 of the initialiser
+    q = e + 1
+    while q < len(ts) and ts[q][1] != ';':
+        if ts[q][1] in '([{':
+            q = match_close(ts, q) + 1
+            continue
+        if ts[q][1] == '.' and q + 6 < len(ts) and [t[1] for t in ts[q + 1:q + 4]] == ['map', '(', '|'] and ts[q + 4][0] == 'ident' \
+                and ts[q + 5][1] == '|' and ts[q + 6][1] == '{':
+            close_paren = match_close(ts, q + 2)
+            body_close = match_close(ts, q + 6)
+            tail = [t[1] for t in ts[close_paren + 1:close_paren + 6]]
+            if body_close + 1 == close_paren and tail == ['.', 'collect', '(', ')', ';']:
+                param = ts[q + 4][1]
+                acc = '__acc_' + name
+                return {'name': name, 'param': param, 'why': names[name], 'edits': [
+                    (ts[e][3], ts[e][3], ' { let mut %s = Vec::new(); for %s in' % (acc, param)),
+                    (ts[q][2], ts[q + 5][3], ' { let __o ='),
+                    (ts[close_paren][2], ts[close_paren + 4][3], '; %s.push(__o); } %s }' % (acc, acc)),
+                ]}
+            return None
+        q += 1
+    return None
 
 
 def contract_tokens(chunks):
